@@ -102,12 +102,13 @@ def struct_names(draw, n):
         tries += 1
         mode = draw(st.sampled_from(['fresh', 'fresh', 'extend', 'prefix'])) if names else 'fresh'
         if mode == 'fresh' or tries > 20:
-            cand = draw(ident)
+            # 'enum' / 'struct' are legal structure names (only column names collide with the C type keywords)
+            cand = draw(st.one_of(ident, ident, ident, st.sampled_from(['ENUM', 'struct', 'Struct', 'enum'])))
         elif mode == 'extend':
             cand = draw(st.sampled_from(names)) + draw(st.from_regex(r'[A-Za-z0-9_]{1,3}', fullmatch=True))
         else:
             cand = draw(st.from_regex(r'[A-Za-z][A-Za-z0-9_]{0,2}', fullmatch=True)) + draw(st.sampled_from(names))
-        if cand.lower() in RESERVED or cand.upper() in {x.upper() for x in names}:
+        if (cand.lower() in RESERVED and cand.lower() not in ('struct', 'enum')) or cand.upper() in {x.upper() for x in names}:
             if tries > 40:
                 cand = 'T%d%s' % (len(names), ''.join(names))[:30]
             else:
@@ -146,10 +147,12 @@ def fix_enums(tables):
                     etypes.add(et)
 
 
-def np_dtype(cols, unicode_ok=False):
+def np_dtype(cols, unicode_ok=False, byteorder='<'):
     dt = []
     for c in cols:
         k = c['kind']
+        if k in INT_RANGE or k in ('f4', 'f8'):
+            k = byteorder + k
         if k in ('S', 'E'):
             base = 'S%d' % c['width']
         elif k == 'V':
@@ -173,8 +176,8 @@ def from_json_cell(col, v):
     return v
 
 
-def build_recarray(table):
-    dt = np_dtype(table['cols'])
+def build_recarray(table, byteorder='<'):
+    dt = np_dtype(table['cols'], byteorder=byteorder)
     a = np.zeros(len(table['rows']), dtype=dt)
     for j, c in enumerate(table['cols']):
         if len(table['rows']):
